@@ -1,7 +1,7 @@
 (* C17 - GeoCollection operations are exact filters and element-wise maps.  Pinned theorems only. *)
 From Coq Require Import ZArith List Bool Reals Lra.
 From Flocq Require Import Core BinarySingleNaN.
-Require Import GV.FloatBase GV.FloatLemmas GV.AngleM GV.GeonumM GV.CollM GV.OrderProofs GV.CollProofs GV.AngleProofs GV.NewProofs GV.CtorProofs GV.GeonumProofs GV.DistValue GV.SumProofs GV.TraitsM GV.TraitsProofs GV.BoundProofs GV.ClosureProofs GV.SumUpper GV.PiBounds GV.TrigProofs GV.DotValue GV.ProdProofs GV.DirProofs GV.FieldProofs GV.ConeProofs.
+Require Import GV.FloatBase GV.FloatLemmas GV.AngleM GV.GeonumM GV.CollM GV.OrderProofs GV.CollProofs GV.AngleProofs GV.NewProofs GV.CtorProofs GV.GeonumProofs GV.DistValue GV.SumProofs GV.TraitsM GV.TraitsProofs GV.BoundProofs GV.ClosureProofs GV.SumUpper GV.PiBounds GV.TrigProofs GV.DotValue GV.ProdProofs GV.DirProofs GV.FieldProofs GV.ConeProofs GV.Atan2Ideal GV.ConeDecide.
 Import ListNotations.
 Open Scope R_scope.
 
@@ -88,3 +88,34 @@ Theorem C17_cone_signed_cos : forall (L : libm) (u : R) direction g, cos_acc L u
     <= 21 / 10 * u + 201 / 1000000000000.
 Proof. exact cone_signed_cos_value. Qed.
 Print Assumptions C17_cone_signed_cos.
+
+(* WHAT THE CONE DECIDES (REAL pi, cos, acos): for any libm whose cos is accurate to u and whose acos is accurate to ua on
+   [-1,1] (acos_acc, an explicit premise, monitored on every recorded call), with c the cosine of the real direction
+   difference between member and axis (= the cosine of their unsigned angle) and e = 2.1u + 2.01e-10:
+   a KEPT member satisfies cos(half + ua) - e <= c (its unsigned angle is at most the half-angle, up to ua and e);
+   a DROPPED member satisfies c < cos(half - ua) + e (its unsigned angle exceeds the half-angle, up to ua and e);
+   nothing is kept when half + ua < 0 and nothing is dropped when half - ua >= pi *)
+Theorem C17_cone_decides : forall (L : libm) (ua : R), acos_acc L ua -> forall (u : R) direction half g, cos_acc L u -> u <= / 1000 ->
+  canonp (rem (ang g)) -> canonp (rem (ang direction)) -> (0 <= blade (ang g))%Z -> (0 <= blade (ang direction))%Z ->
+  fin (dot_value L g direction) -> fin (cone_signed_cos L direction g) -> fin half ->
+  bpow radix2 (-500) <= R_ (mag g) * R_ (mag direction) <= bpow radix2 500 ->
+  feq (fmul (mag g) (mag direction)) zero = false ->
+  let c := cos (dir (ang direction) - dir (ang g)) in
+  let e := 21 / 10 * u + 201 / 1000000000000 in
+  (cone_pred L direction half g = true ->
+     0 <= R_ half + ua /\ (R_ half + ua <= Rtrigo1.PI -> cos (R_ half + ua) - e <= c)) /\
+  (cone_pred L direction half g = false ->
+     R_ half - ua < Rtrigo1.PI /\ (0 <= R_ half - ua -> c < cos (R_ half - ua) + e)).
+Proof. exact cone_decides_angle. Qed.
+Print Assumptions C17_cone_decides.
+
+Theorem C17_acos_acc_def : forall L ua, acos_acc L ua <->
+  forall x, fin x -> -1 <= R_ x <= 1 -> fin (acosF L x) /\ Rabs (R_ (acosF L x) - acos (R_ x)) <= ua.
+Proof. intros; unfold acos_acc; tauto. Qed.
+Print Assumptions C17_acos_acc_def.
+
+(* the two libm premises are jointly satisfiable (correctly rounded real cos and acos) *)
+Theorem C17_cone_premises_inhabited : cos_acc ideal_libm3 (/ 4503599627370496) /\ acos_acc ideal_libm3 (/ 1125899906842624) /\
+  / 4503599627370496 <= / 1000.
+Proof. exact ideal3_hyps. Qed.
+Print Assumptions C17_cone_premises_inhabited.
